@@ -2752,6 +2752,9 @@ SNIPPETS = [
     ("bad", "f", "def f(a):\n    a.sort()\n"),
     ("bad", "f", "def f(a):\n    b = a\n    b[0] = 1\n"),
     ("bad", "f", "import numpy as np\ndef f(a):\n    b = np.asarray(a)\n    b += 1\n"),
+    # /repo fc69e2e: `np.ascontiguousarray(x)` MAY BE `x` itself (an array that already is C-contiguous), or a fresh copy
+    ("bad", "f", "import numpy as np\ndef f(a):\n    b = np.ascontiguousarray(a)\n    b[0] = 1\n"),
+    ("good", "f", "import numpy as np\ndef f(a):\n    if not isinstance(a, list):\n        a = np.ascontiguousarray(a)\n    return a.sum()\n"),
     ("bad", "f", "def f(a):\n    l = list(a)\n    l[0][0] = 5\n"),
     ("bad", "f", "def f(a):\n    a[:, 1] -= a[:, 0]\n    return a\n"),
     ("bad", "f", "import numpy as np\ndef f(a):\n    np.fill_diagonal(a, 0)\n"),
